@@ -354,7 +354,10 @@ class _OrderedExecutor:
     log = None
     chooser = None
 
-    def __init__(self, *a, **kw):
+    def __init__(self, max_workers=None, *a, **kw):
+        # documented constructor contract of ThreadPoolExecutor / ProcessPoolExecutor
+        if max_workers is not None and max_workers <= 0:
+            raise ValueError("max_workers must be greater than 0")
         self._unordered = []         # submitted, run position not fixed yet
         self._queue = []             # run order fixed, not run yet
         self._shutdown = False
